@@ -120,7 +120,7 @@ def acdeep_jobs(tier):
       "sized heap block: URL {%,+,a,4,G,SP,0x80} L=7, Base64 {A,z,=,+,/,LF,0xff} L=7, hex {0,a,F,g,0xff} L=8, query "
       "{&,=,%,+,a,SP} L=7, INI 16 tokens incl. ${a} ${b} ${ } $ { [ ] # LF SP ${%E} ${!x} L=5, INI file with @INCLUDE "
       "L=5, Apache 14 tokens incl. quotes, backslash, < </ > # LF L=5 x 2 flag sets, and over-long lines around the "
-      "4096/8192 fgets boundary (thorough: L+1). Oracle: no ASan/UBSan report, no crash, no hang (allocation budget + "
+      "4096/8192 fgets boundary (thorough: L+1), and Apache documents of d nested sections for every d = 1..300 (600) and 400..20000. Oracle: no ASan/UBSan report, no crash, no hang (allocation budget + "
       "CPU watchdog), decoders never grow the string. non-trivial = non-empty / contains a structural token",
       ["popen is wrapped to fail (${!cmd} never executes)", "self-including files (@INCLUDE of the file itself) are outside the bound"],
       [need("evaluations", 1000000)])
@@ -152,7 +152,9 @@ def c17(tier, seed):
       "types STR/INT/FLOAT/BOOL x argument vectors over 34 values incl. all 24 boolean spellings; (ii) every argument list "
       "of <= 3 arguments over 12 strings x bare/single/double quoting x 4 separators x 2 line endings; (iii) every document "
       "of nested blocks (<= 2 items per block, nesting depth <= 2; thorough depth 3) over scoped options, two section options, "
-      "unregistered and wrong-case names, closes that match / mismatch / are missing, x 4 flag sets. "
+      "unregistered and wrong-case names, closes that match / mismatch / are missing, x 4 flag sets (one section id above bit 31); "
+      "(iv) d nested sections for every d = 1..300 (600): level == number of parents, beyond 255 only a refusal naming line 256; "
+      "INI files with <= 3 (4) lines over four include directives whose file names are prefixes of each other and values containing directive text. "
       "non-trivial = contains a reference/section, an accepted typed directive, a quoted argument, or a section",
       ["the generator's meaning of each document is the oracle", "popen wrapped to fail", "count of ignored unknown directives: either convention accepted",
        "float syntax = digits with one inner dot (as the source documents); '1.' and '.5' are not floats"],
@@ -356,7 +358,7 @@ def vector_jobs(tier):
 @prop("C10", "model_checking",
       "for initial capacity 0..3 x element size {1,3,8,16} (thorough {1,2,3,4,7,8,16,64}) x growth policy exact/linear/double: "
       "BFS closure of every vector state of <= 4 (thorough 6) elements over 3 element values (one all-zero): addfirst/addlast, "
-      "addat/setat/popat/removeat for every index in [-n-2, n+2] and the first/last variants, reverse, resize(0..n+2), clear; "
+      "addat/setat/popat/removeat for every index in [-n-2, n+2] and the first/last variants, reverse, resize(0..n+2), resize and constructor with capacities SIZE_MAX/objsize+1, +2 and SIZE_MAX (refused, nothing changed), clear; "
       "after every transition getat of every index (both newmem), getfirst/getlast, size, toarray, getnext walks, "
       "capacity >= count, errno of refusals, 'refused => unchanged'. Canonical state = (capacity, contents)",
       ["array model in engines/seqmc/vector.c; the model does not predict the capacity, only capacity >= count"],
@@ -377,14 +379,16 @@ def hasharr_jobs(tier):
 
 
 @prop("C06", "model_checking",
-      "BFS over every reachable memory image of a static hash table with M = 2..5 slots (thorough ..6) and a universe of six "
+      "BFS over every reachable memory image of a static hash table with M = 1..5 slots (thorough ..7) and a universe of six "
       "keys chosen with an independent MurmurHash3: two short keys with home slot 0, one with home 1, one with home M-1 "
       "(wrap-around probing; the first collision lands in a foreign home slot and later forces relocation), two 21-byte keys "
       "with the same length, 16-byte prefix and home (matched by length+prefix+MD5 only); value lengths 1, 32, 33, 98, 99 on "
       "both sides of every slot boundary. Ops: put / put_by_obj, remove / remove_by_obj, remove_by_idx(every slot), clear. "
       "Oracle: map model for get of every key and a full getnext walk; size() triple = (keys, M, sum of slots(len)); a put "
       "succeeds iff a slot is free and the value fits into free + released slots, else ENOBUFS, other keys untouched, own key "
-      "unchanged or absent; remove_by_idx succeeds iff that slot holds a key. Plus a 65535-byte key single case",
+      "unchanged or absent; remove_by_idx succeeds iff that slot holds a key (indexes -1, M, M+1 included). Plus a 65535-byte key "
+      "single case, the constructor for every region size 1..600 bytes (thorough 1200), and one collision chain of every "
+      "length 1..32768 in a 33005-slot table (keys by inverting MurmurHash3; the bucket counter of the image is 16 bits wide)",
       ["map + slot-accounting model in engines/imagemc/hasharr.c", "slots(len) = 1 + ceil(max(0, len-32)/66)"],
       [need("states", 5000), need("relocations"), need("promotions"), need("slots_extension_seen"), need("slots_collision_seen"), forbid("replay_divergence")],
       classes=["space:*", "image:get-*", "image:remove*", "image:walk-*", "image:bigkey", "image:ctor", "fmt:*"])
@@ -439,7 +443,7 @@ def o0_container_jobs(tier):
       "state) executed on an ASan+UBSan build with -fno-builtin (memcpy overlap is checked), all caller data in exactly-sized "
       "heap blocks; oracle: zero sanitizer reports on any transition, live-block ledger (--wrap of malloc/calloc/realloc/"
       "strdup/free) back to its start value after free() of the container at the end of every replayed history, static hash "
-      "table region exactly sized and fenced by guard zones; the searches run once more at smaller bounds in an unoptimised, "
+      "table region exactly sized and fenced by guard zones; qhashtbl copying scans with a removal after the 1st/2nd/3rd element (documented as allowed); the searches run once more at smaller bounds in an unoptimised, "
       "uninstrumented build with the stack filled with 0xA5 before every case (uninitialised automatic variables)",
       ["UBSan alignment and nonnull-attribute checks are disabled (MurmurHash3 word loads; memcpy(p, NULL, 0) idiom)"],
       [need("states", 10000), forbid("replay_divergence")], classes=["asan:*", "leak:*", "guard:*", "scanrm:*"])
@@ -515,7 +519,7 @@ def fault_jobs(tier, which):
       "every state of a small corpus x every public operation with argument classes reaching each outcome x fault plan "
       "{fail exactly the k-th allocation inside the call, fail every allocation from the k-th on} for k = 1..N (N counted by a "
       "dry run), plus every constructor. Oracle (differential against fault-free runs of the same code): same return value "
-      "and same container as the fault-free run, or the failure value and the container exactly as before; a fixed suffix of "
+      "and same container as the fault-free run (for save: also the same file text), or the failure value and the container exactly as before; a fixed suffix of "
       "operations behaves as on the fault-free reference; ledger back to its start value after free(); no crash, no "
       "sanitizer report. non-trivial = the planned allocation failure was actually hit",
       ["functional correctness of the fault-free run is the subject of C01-C10", "double faults other than 'all from k' are not enumerated"],
@@ -568,7 +572,7 @@ def c13_jobs(tier):
       "for each thread-safe container (vector, list, queue, stack, tree table, hash table with one shared chain, list table "
       "plain and UNIQUE): every 2-thread client program with <= 2 operations in one thread and 1 in the other and every 3-thread program with 1 operation each, over an "
       "alphabet of 6-12 operations on shared keys/positions (insert/put new and existing, copying get, remove/pop, clear, "
-      "toarray/tostring, lock;walk;unlock) from 2 initial states (thorough: <= 2 operations per thread and all 3-thread "
+      "toarray/tostring, lock;walk;unlock; for the tree also puts on a second thread-safe table that only one thread uses) from 2 initial states (thorough: <= 2 operations per thread and all 3-thread "
       "1-operation programs); for every program every schedule with <= 2 preemptions (thorough 3 for 1-op programs) at the "
       "granularity of the library's lock operations, real pthreads serialised by a futex hand-off scheduler. Every execution: "
       "brute-force linearizability against sequential runs of the same code (results of every call + final contents, "
